@@ -97,4 +97,154 @@ theorem chordLoop_range (o : Options ℝ) (h : OptOK o) (σ : Type) (stp : Drive
         exact ⟨i0, le_trans i1 k1⟩
     · exact ⟨hs, le_refl _⟩
 
+/-- `one_good_step`: the reported step is in (0, trial] -/
+theorem goodLoop_range (o : Options ℝ) (h : OptOK o) (σ : Type) (stp : Driver.Stepper σ ℝ)
+    (y : OdeState ℝ) : ∀ (n : ℕ) (step : ℝ) (s : σ), 0 < step →
+      0 < (Driver.goodLoop o stp y n step s).1 ∧ (Driver.goodLoop o stp y n step s).1 ≤ step := by
+  have key : ∀ (step e : ℝ), 0 < step → 1 < e →
+      0 < step * fmax (Driver.newStepScale o e) o.maxSteppingDecrease
+      ∧ step * fmax (Driver.newStepScale o e) o.maxSteppingDecrease ≤ step := by
+    intro step e hs he
+    rw [fmax_real]
+    obtain ⟨_, s1⟩ := newStepScale_shrink o h e he
+    have hf1 : max (Driver.newStepScale o e) o.maxSteppingDecrease ≤ 1 :=
+      max_le (le_of_lt s1) (le_of_lt h.dec_lt)
+    have hf0 : 0 < max (Driver.newStepScale o e) o.maxSteppingDecrease :=
+      lt_of_lt_of_le h.dec_pos (le_max_right _ _)
+    exact ⟨mul_pos hs hf0, by nlinarith⟩
+  intro n
+  induction n using Nat.strong_induction_on with
+  | _ n ih =>
+    intro step s hs
+    rw [Driver.goodLoop]
+    simp only [NumR.gt_real, NumR.hmul_real, NumR.lit1]
+    split_ifs with hd
+    · obtain ⟨k0, k1⟩ := key step _ hs hd
+      match n with
+      | 0 => exact ⟨k0, k1⟩
+      | 1 => exact ⟨k0, k1⟩
+      | n' + 2 =>
+        simp only []
+        obtain ⟨i0, i1⟩ := ih (n' + 1) (by omega) _ (stp s step y).2 k0
+        exact ⟨i0, le_trans i1 k1⟩
+    · exact ⟨hs, le_refl _⟩
+
+/-- `integrate_step`: the step taken is in (0, h] -/
+theorem integrateStep_range (o : Options ℝ) (h : OptOK o) (σ : Type) (stp : Driver.Stepper σ ℝ)
+    (hh : ℝ) (y : OdeState ℝ) (s : σ) (hpos : 0 < hh) :
+    0 < (Driver.integrateStep o stp hh y s).1.fin.step
+      ∧ (Driver.integrateStep o stp hh y s).1.fin.step ≤ hh := by
+  unfold Driver.integrateStep
+  split_ifs with hg
+  · unfold Driver.oneGoodStep
+    exact goodLoop_range o h σ stp y _ hh s hpos
+  · exact ⟨hpos, le_refl _⟩
+
+/-- `accurate_advance` loop: the accumulated curve length strictly grows -/
+theorem accLoop_range (o : Options ℝ) (h : OptOK o) (σ : Type) (stp : Driver.Stepper σ ℝ)
+    (endLen thr : ℝ) : ∀ (n : ℕ) (hh : ℝ) (y : OdeState ℝ) (curve : ℝ) (s : σ), 0 < hh →
+      curve < (Driver.accLoop o stp endLen thr n hh y curve s).1 := by
+  intro n
+  induction n using Nat.strong_induction_on with
+  | _ n ih =>
+    intro hh y curve s hpos
+    obtain ⟨i0, _⟩ := integrateStep_range o h σ stp hh y s hpos
+    rw [Driver.accLoop]
+    simp only [NumR.hadd_real, NumR.hsub_real, Bool.or_eq_true, NumR.lt_real, NumR.ge_real]
+    split_ifs with hd
+    · simp only []; linarith
+    · match n with
+      | 0 => simp only []; linarith
+      | 1 => simp only []; linarith
+      | n' + 2 =>
+        simp only []
+        simp only [not_or, not_lt, not_le] at hd
+        have hh' : 0 < fmin (fmax (Driver.integrateStep o stp hh y s).1.proposed o.minimumStep)
+            (endLen - (curve + (Driver.integrateStep o stp hh y s).1.fin.step)) := by
+          rw [fmin_real, fmax_real]
+          exact lt_min (lt_of_lt_of_le h.min_pos (le_max_right _ _)) (by linarith [hd.2])
+        have := ih (n' + 1) (by omega) _ (Driver.integrateStep o stp hh y s).1.fin.state
+          (curve + (Driver.integrateStep o stp hh y s).1.fin.step)
+          (Driver.integrateStep o stp hh y s).2 hh'
+        linarith
+
+theorem accurateAdvance_range (o : Options ℝ) (h : OptOK o) (σ : Type) (stp : Driver.Stepper σ ℝ)
+    (step : ℝ) (y : OdeState ℝ) (hinit : ℝ) (s : σ) (hs : 0 < step) :
+    0 < (Driver.accurateAdvance o stp step y hinit s).1.step
+      ∧ (Driver.accurateAdvance o stp step y hinit s).1.step ≤ step := by
+  unfold Driver.accurateAdvance
+  simp only [fmin_real, NumR.lit0]
+  have hh : 0 < (if (Num.gt hinit (initialStepTol * step) && Num.lt hinit step) = true
+      then hinit else step) := by
+    split_ifs with hc
+    · simp only [Bool.and_eq_true, NumR.gt_real, NumR.lt_real, NumR.hmul_real] at hc
+      have := mul_pos initialStepTol_pos hs
+      linarith [hc.1]
+    · exact hs
+  have := accLoop_range o h σ stp step (o.epsilonStep * step) o.maxNsteps.toNat _ y 0 s hh
+  exact ⟨lt_min this hs, min_le_right _ _⟩
+
+/-- the part of `advance` after the trial step has been chosen -/
+theorem advance_tail (o : Options ℝ) (h : OptOK o) (σ : Type) (stp : Driver.Stepper σ ℝ)
+    (maxChord : Option ℝ) (hmc : ∀ m, maxChord = some m → 0 < m)
+    (step trial : ℝ) (ht : 0 < trial) (htl : trial ≤ step) (y : OdeState ℝ) (s : σ)
+    (res : DriverResult ℝ × Option ℝ × σ)
+    (hres : res =
+      (let (out, s) := Driver.findNextChord o stp trial y s
+       let maxChord' := if Num.lt out.fin.step step
+         then some (out.fin.step * ((@OfNat.ofNat ℝ 1 (Num.instOfNat 1)) / minChordShrink)) else maxChord
+       if Num.gt out.errSq (@OfNat.ofNat ℝ 1 (Num.instOfNat 1)) then
+         let nextStep := step * Driver.newStepScale o out.errSq
+         let (r, s) := Driver.accurateAdvance o stp out.fin.step y nextStep s
+         (r, maxChord', s)
+       else (out.fin, maxChord', s))) :
+    0 < res.1.step ∧ res.1.step ≤ step ∧ (∀ m, res.2.1 = some m → 0 < m) := by
+  obtain ⟨c0, c1⟩ := chordLoop_range o h σ stp y o.maxNsteps.toNat trial s ht
+  subst hres
+  unfold Driver.findNextChord
+  simp only []
+  have hmcq : ∀ (q : ℝ), 0 < q → ∀ m, (if Num.lt q step = true
+        then some (q * ((@OfNat.ofNat ℝ 1 (Num.instOfNat 1)) / minChordShrink)) else maxChord) = some m
+        → 0 < m := by
+    intro q hq m hm
+    split_ifs at hm with hlt
+    · simp only [Option.some.injEq] at hm
+      rw [← hm, NumR.hmul_real, NumR.hdiv_real, NumR.lit1, minChordShrink_real]
+      have : (0 : ℝ) < 1 / (1 / 2) := by norm_num
+      exact mul_pos hq this
+    · exact hmc m hm
+  by_cases he : Num.gt (Driver.errSqOf o (Driver.chordLoop o stp y o.maxNsteps.toNat trial s).2.1.err
+      (Driver.chordLoop o stp y o.maxNsteps.toNat trial s).1 y.mom)
+      (@OfNat.ofNat ℝ 1 (Num.instOfNat 1)) = true
+  · simp only [he, if_true]
+    exact ⟨(accurateAdvance_range o h σ stp _ y _ _ c0).1,
+      le_trans (accurateAdvance_range o h σ stp _ y _ _ c0).2 (le_trans c1 htl), hmcq _ c0⟩
+  · simp only [he, if_false, Bool.false_eq_true]
+    exact ⟨c0, le_trans c1 htl, hmcq _ c0⟩
+
+/-- `advance`: reported substep in (0, requested]; `max_chord_` stays positive -/
+theorem advance_range (o : Options ℝ) (hv : o.valid = true) (σ : Type)
+    (stp : Driver.Stepper σ ℝ) (maxChord : Option ℝ) (hmc : ∀ m, maxChord = some m → 0 < m)
+    (step : ℝ) (hs : 0 < step) (y : OdeState ℝ) (s : σ) :
+    0 < (Driver.advance o stp maxChord step y s).1.step
+    ∧ (Driver.advance o stp maxChord step y s).1.step ≤ step
+    ∧ (∀ m, (Driver.advance o stp maxChord step y s).2.1 = some m → 0 < m) := by
+  have h := optOK_of_valid o hv
+  by_cases hq : Num.le step o.minimumStep = true
+  · unfold Driver.advance
+    simp only [hq, if_true]
+    exact ⟨hs, le_refl _, hmc⟩
+  · cases hmcase : maxChord with
+    | none =>
+      apply advance_tail o h σ stp none (by intro m hm; simp at hm) step step hs (le_refl _) y s
+      unfold Driver.advance
+      simp only [hq, if_false, Bool.false_eq_true]
+    | some m0 =>
+      have hm0 : 0 < m0 := hmc m0 hmcase
+      apply advance_tail o h σ stp (some m0) (by intro m hm; simp at hm; rw [← hm]; exact hm0)
+        step (fmin step m0) (by rw [fmin_real]; exact lt_min hs hm0)
+        (by rw [fmin_real]; exact min_le_left _ _) y s
+      unfold Driver.advance
+      simp only [hq, if_false, Bool.false_eq_true]
+
 end CelerVerif.FieldProp
